@@ -309,6 +309,10 @@ func runC10(r *Run) {
 			"enablement must be membership in the protocol's patch list", "true only on an element match", "a true return is not guarded by an element match")
 	}
 
+	if r.Universal {
+		r.universalE6(P)
+		r.universalParamsLive(P, sinks)
+	}
 	r.checkNoPanic(P, r.parserEntries(P), 100)
 }
 
